@@ -206,6 +206,9 @@ class Run(object):
             return o, list(dict.items(o))
         if shape == 'self':
             return self.c, []
+        if shape == 'keys-and-getitem':
+            # the least dict.update() asks of a mapping: keys() and [] (sqlite3.Row, header objects) - not a Mapping
+            return KeysAndGetitem(pairs), list(dict(pairs).items())
         raise ValueError(shape)
 
     def step(self, op):
@@ -428,6 +431,17 @@ def skey(x):
     return (1, repr(x))
 
 
+class KeysAndGetitem(object):
+    def __init__(self, pairs):
+        self._d = dict(pairs)
+
+    def keys(self):
+        return list(self._d)
+
+    def __getitem__(self, k):
+        return self._d[k]
+
+
 class Check(object):
     def ops_of(self, h):
         return h['ops']
@@ -473,7 +487,7 @@ class Check(object):
             elif kind == 'pop':
                 ops.append(['pop', k, v] if r.random() < 0.5 else ['pop', k])
             elif kind in ('update', 'ior'):
-                shape = r.choice(['dict', 'pairs', 'iter', 'cache', 'self'])
+                shape = r.choice(['dict', 'pairs', 'iter', 'cache', 'self', 'keys-and-getitem'])
                 pairs = [[r.choice(pool), r.randint(0, 9)] for _ in range(r.randint(0, ms + 2 if ms < 100 else 5))]
                 if r.random() < 0.08:
                     # a long replayed log: hundreds of pairs over few keys (hot keys repeat, also near the end)
